@@ -29,7 +29,7 @@ ASSUMPTIONS = [
 def required(tier):
     return ["time:direct query", "time:tempo event", "time:time-signature event", "time:text event", "time:section event",
             "time:lyric event", "time:note", "time:note end", "time:star-power event", "time:track event",
-            "tick_at_tempo_change", "tick_past_last_tempo", "fraction_within_1e-3_of_half_us", "segment:10-499",
+            "tick_at_tempo_change", "tick_past_last_tempo", "fraction_within_1e-3_of_half_us", "segment:10-499", "segment:500+",
             "bpm_below_1", "bpm_at_least_1e5", "directed_half_boundary"]
 
 
@@ -37,8 +37,7 @@ def shards(tier, seed):
     n = 16 if tier == "quick" else 48
     per = 110 if tier == "quick" else 2200
     out = [{"name": f"rand-{i}", "kind": "random", "count": per} for i in range(n)]
-    if tier == "thorough":
-        out += [{"name": f"stress-{i}", "kind": "stress", "count": 6} for i in range(8)]
+    out += [{"name": f"stress-{i}", "kind": "stress", "count": 2 if tier == "quick" else 6} for i in range(4 if tier == "quick" else 8)]
     return out
 
 
